@@ -113,3 +113,8 @@ Theorem C07_zero_duration_lock_is_rejected_and_tears :
   wf false false [AcqW; RelW; SwapWords 7] = false /\
   results (th (run [0;0;0;0; 1;1;1;1;1] (init [0;0] mutant_scripts)) 1) = [[7;0]].
 Proof. exact (conj mutant_zero_duration mutant_tears). Qed.
+
+(* serializing a handle (feature serde) is a guarded read: the value is walked under the read guard *)
+Theorem C07_code_serialize_reads_under_the_guard :
+  fn_body Handle_serialize = [EMethod (EMethod (EPath ["self"%string]) "read" []) "serialize" [EPath ["s"%string]]].
+Proof. exact serialize_reads_under_the_guard. Qed.
